@@ -1021,6 +1021,25 @@ static void gen_edge(rng &r, bool)
                 P("finish");
             }
     }
+    // stoi / stol / stoll / stod(static_string) of std_portable.h: digit strings up to exactly N characters
+    for (int N : {1, 2, 3, 8})
+        for (int len = 0; len <= N + 1; len++)
+        {
+            P(sreset("p", N, 1));
+            std::string d;
+            for (int i = 0; i < len; i++) d.push_back((char)('0' + (i == 0 && len > 1 ? r.range(1, 9) : r.range(0, 9))));
+            if (len >= 2 && r.chance(30)) d[0] = '-';
+            P("sptr 0 " + hx(d));
+            P("sstoi 0");
+            P("spush 0 37");
+            P("sstoi 0");
+            P("sgetany 0 " + S(N));
+            P("sdel 0");
+        }
+    P(sreset("c", 3, 1));
+    P("sptr 0 " + hx("12"));
+    P("sstoi 0"); // not in this twin
+    P("sdel 0");
     P("reset premain");
     P("premain");
 }
